@@ -49,28 +49,36 @@ def cups (c : Cfg) (s : CSt) (room : Nat) : CSt × List Prov :=
   let s := if c.v ≤ s.nro then { s with rg := s.rg + 1 } else s
   (s, rows)
 
+/-- CTX_PREPARE_FOR_IMCU -/
+def cprep (c : Cfg) (s : CSt) : CSt :=
+  { s with rg := 0, avail := if s.ictr = c.T then c.bottomAvail else c.M - 1, cs := 1 }
+
+/-- CTX_PROCESS_IMCU with room for `room` rows: one call of the upsampler; when the last of the `avail` row groups is
+done, switch to the other pointer list and postpone the last row group of this iMCU row -/
+def cproc (c : Cfg) (s : CSt) (room : Nat) : CSt × List Prov :=
+  let r := cups c s room
+  if r.1.rg < r.1.avail then r
+  else ({ r.1 with which := 1 - r.1.which, bf := false, rg := c.M + 1, avail := c.M + 2, cs := 2, postRow := r.1.curRow }, r.2)
+
+/-- `(*cinfo->coef->decompress_data)` into `xbuffer[whichptr]` when the main buffer is empty -/
+def cfill (s : CSt) : CSt :=
+  if s.bf then s else { s with bf := true, curRow := s.irow, irow := s.irow + 1, ictr := s.ictr + 1 }
+
 /-- `process_data_context_main` with room for `n` rows -/
 def cprocess (c : Cfg) (s : CSt) (n : Nat) : CSt × List Prov :=
-  let s := if s.bf then s else { s with bf := true, curRow := s.irow, irow := s.irow + 1, ictr := s.ictr + 1 }
-  -- CTX_POSTPONED_ROW
-  let r1 := if s.cs = 2 then cups c s n else (s, [])
-  let s := r1.1
-  if s.cs = 2 ∧ s.rg < s.avail then (s, r1.2)
-  else
-    let s := if s.cs = 2 then { s with cs := 0 } else s
-    if r1.2.length ≥ n ∧ r1.1.cs = 2 then (s, r1.2)
+  let s := cfill s
+  if s.cs = 2 then
+    -- CTX_POSTPONED_ROW
+    let r1 := cups c s n
+    if r1.1.rg < r1.1.avail then r1
     else
-      -- CTX_PREPARE_FOR_IMCU
-      let s := if s.cs = 0 then
-          { s with rg := 0, avail := if s.ictr = c.T then c.bottomAvail else c.M - 1, cs := 1 }
-        else s
-      -- CTX_PROCESS_IMCU
-      let r2 := cups c s (n - r1.2.length)
-      let s := r2.1
-      if s.rg < s.avail then (s, r1.2 ++ r2.2)
+      let s := { r1.1 with cs := 0 }
+      if n ≤ r1.2.length then (s, r1.2)
       else
-        ({ s with which := 1 - s.which, bf := false, rg := c.M + 1, avail := c.M + 2, cs := 2, postRow := s.curRow },
-         r1.2 ++ r2.2)
+        let r := cproc c (cprep c s) (n - r1.2.length)
+        (r.1, r1.2 ++ r.2)
+  else if s.cs = 0 then cproc c (cprep c s) n
+  else cproc c s n
 
 def cread (c : Cfg) (s : CSt) (n : Nat) : CSt × List Prov :=
   if c.H ≤ s.y then (s, [])
@@ -102,5 +110,16 @@ def cskip (c : Cfg) (s : CSt) (n : Nat) : CSt × Nat :=
       let s := { s with y := s.y + toSkip, irow := s.irow + toSkip / L, ictr := s.ictr + toSkip / L }
       let s := creadDiscard c toRead s
       ({ s with rtg := c.H - s.y }, n)
+
+def cstep (c : Cfg) (s : CSt) : Call → CSt × List (Nat × Prov) × Nat
+  | .rd n => let r := cread c s n; (r.1, (r.2.zipIdx s.y).map (fun (p, i) => (i, p)), r.2.length)
+  | .sk n => let r := cskip c s n; (r.1, [], r.2)
+
+def crun (c : Cfg) : CSt → List Call → CSt × List (Nat × Prov)
+  | s, [] => (s, [])
+  | s, a :: as =>
+    let r := cstep c s a
+    let r2 := crun c r.1 as
+    (r2.1, r.2.1 ++ r2.2)
 
 end LJT.Skip
